@@ -987,3 +987,111 @@ Proof.
   - eapply exec_uret_F; eauto.
   - eapply exec_uchpush_F; eauto.
 Qed.
+
+(** ** the end of a step *)
+Lemma f_steq : forall p st st' m,
+  FRel p st m -> nthr st' = nthr st -> pps st' = pps st ->
+  (forall u, tcont (thr st' u) = tcont (thr st u) /\ tcur (thr st' u) = tcur (thr st u) /\
+             tret (thr st' u) = tret (thr st u) /\ tpipe (thr st' u) = tpipe (thr st u)) ->
+  FRel p st' m.
+Proof.
+  intros p st st' m R Hn Epp Hu.
+  assert (Co : forall u, tcont (thr st' u) = tcont (thr st u)) by (intro u; apply Hu).
+  assert (Cu : forall u, tcur (thr st' u) = tcur (thr st u)) by (intro u; apply Hu).
+  assert (Tr : forall u, tret (thr st' u) = tret (thr st u)) by (intro u; apply Hu).
+  assert (Tp : forall u, tpipe (thr st' u) = tpipe (thr st u)) by (intro u; apply Hu).
+  assert (Mc : mcont st' = mcont st) by (unfold mcont; apply Co).
+  assert (Wk : forall u, wkr st' u <-> wkr st u) by (intro u; unfold wkr; rewrite Hn, Tp; tauto).
+  assert (Rt : forall u, rtransit (thr st' u) = rtransit (thr st u)) by (intro u; unfold rtransit; rewrite Co, Cu, Tr; reflexivity).
+  constructor.
+  - intros t q x. rewrite Cu, Co. apply (f_psend _ _ _ R).
+  - intros t q. rewrite Cu, Co. apply (f_pdrop _ _ _ R).
+  - rewrite Epp, Mc. apply (f_noex _ _ _ R).
+  - rewrite Epp. apply (f_drop _ _ _ R).
+  - intros t W. rewrite Epp, Tp. apply Wk in W. apply (f_late _ _ _ R t W).
+  - intros t c W. rewrite Cu, Tr, Co. apply Wk in W. apply (f_ok _ _ _ R t c W).
+  - intros u W. cbn zeta. rewrite Tp, Rt, Epp, Mc. apply Wk in W. apply (f_ps _ _ _ R u W).
+  - intros t m0 q x. rewrite Co, Cu. apply (f_own_send _ _ _ R).
+  - intros t q x. rewrite Cu, Tr. apply (f_sendret _ _ _ R).
+  - intros t q. rewrite Cu, Co, Epp. apply (f_dropcmd _ _ _ R).
+  - intros t m0 q. rewrite Co, Cu, Epp. apply (f_own_cs _ _ _ R).
+  - intros t. rewrite Cu. apply (f_late_cur _ _ _ R).
+  - intros t m0 v. rewrite Co, Cu. intro Hin. destruct (f_own_ret _ _ _ R t m0 v Hin) as [A B]. split; [exact A|]. intros z Ez. destruct (B z Ez) as [B1 B2]. split; [exact B1|apply Wk; exact B2].
+  - intros t j. rewrite Co, Cu, Tp. intro Hin. destruct (f_own_pr _ _ _ R t j Hin) as [A [B C]].
+    split; [intros m0 q E; destruct (A m0 q E) as [A1 A2]; split; [apply Wk; exact A1|exact A2]|split;
+      [intros m0 q E; destruct (B m0 q E) as [B1 B2]; split; [apply Wk; exact B1|exact B2]|intros m0 q x E; destruct (C m0 q x E) as [C1 C2]; split; [apply Wk; exact C1|exact C2]]].
+  - intros t c. rewrite Cu, Co, Tr. apply (f_pr _ _ _ R).
+Qed.
+
+Lemma norm_head_facts : forall i, norm_head i -> pr i = false /\ (forall q, spend q [i] = []) /\ (forall m0 q, i <> ILock m0 (LPqCancelSet q)).
+Proof. intros i H. destruct i; cbn in H; try contradiction; repeat split; try reflexivity; intros; discriminate. Qed.
+
+Lemma f_NS_step : forall p st s acc i r s' acc' new m,
+  XInv st -> FRel p (NS st s acc (i :: r)) m -> norm_head i -> (forall j, In j new -> fq j) ->
+  FRel p (NS st s' acc' (new ++ r)) m.
+Proof.
+  intros p st s acc i r s' acc' new m X R Hi Hnew.
+  destruct (NS_fields st s acc (i :: r)) as [A1 [A2 [A3 [A4 [A5 [A6 [A7 [A8 [A9 A10]]]]]]]]].
+  destruct (NS_fields st s' acc' (new ++ r)) as [B1 [B2 [B3 [B4 [B5 [B6 [B7 [B8 [B9 B10]]]]]]]]].
+  set (SA := NS st s acc (i :: r)) in *. set (SB := NS st s' acc' (new ++ r)) in *.
+  assert (Th : forall u, u <> main -> thr SB u = thr SA u) by (intros u Hu; rewrite A10, B10; auto).
+  assert (Fm : tcur (thr SB main) = tcur (thr SA main) /\ tscript (thr SB main) = tscript (thr SA main) /\ tfinal (thr SB main) = tfinal (thr SA main) /\
+               tstarted (thr SB main) = tstarted (thr SA main) /\ tpipe (thr SB main) = tpipe (thr SA main) /\ tret (thr SB main) = tret (thr SA main)).
+  { unfold SA, SB, NS. repeat split; thr_simpl. }
+  assert (TpA : tpipe (thr SA main) = tpipe (thr st main)) by (unfold SA, NS; thr_simpl).
+  assert (F : tframe SA SB main).
+  { split; [rewrite A5, B5; reflexivity|]. split.
+    - intro u. destruct (Nat.eq_dec u main) as [->|E]; [destruct Fm as [F1 [F2 [F3 [F4 [F5 _]]]]]; auto|rewrite Th; auto].
+    - intros u Hu. rewrite Th; auto. }
+  assert (Pps : pps SB = pps SA) by (rewrite A7, B7; reflexivity).
+  assert (Tr : forall u, tret (thr SB u) = tret (thr SA u)) by (intro u; destruct (Nat.eq_dec u main) as [->|E]; [apply Fm|rewrite Th; auto]).
+  assert (Nw : ~ wkr SA main) by (intros [_ W]; rewrite TpA in W; destruct (x_main _ X) as [_ Xm]; lia).
+  destruct (norm_head_facts i Hi) as [Pi [Si Ci]]. destruct (fq_list new Hnew) as [Cn [Sn Vn]].
+  assert (Sp : forall q, spend q (mcont SB) = spend q (mcont SA)).
+  { intro q. unfold mcont. rewrite A8, B8, spend_app, Sn, (spend_cons q i r), Si. reflexivity. }
+  clearbody SA SB.
+  apply (f_step_q p SA SB m m main i r new 0 R (f14_same_refl m) F A8 B8 Hnew).
+  - intro q. rewrite Pps. repeat split; reflexivity.
+  - left. rewrite Pps. split; [reflexivity|]. split; [reflexivity|apply Sp].
+  - rewrite Pps. auto.
+  - intros u _. apply Tr.
+  - intro W. exfalso. exact (Nw W).
+  - intros q _. apply Sp.
+  - intros u W E. pose proof (f_ps _ _ _ R u W) as L. cbn zeta in L. rewrite E in L.
+    assert (Hu : u <> main) by (intro Y; subst u; exact (Nw W)).
+    unfold rtransit. rewrite (Th u Hu), Pps, Sp. exact L.
+  - intros c W. exfalso. exact (Nw W).
+  - intros q x Hq. rewrite Tr. apply (f_sendret _ _ _ R main q x Hq).
+  - intros q Hq. rewrite Pps.
+    assert (Np : p <> FDropBad main q) by (intro E; destruct (f_pdrop _ _ _ R main q E) as [_ Z0]; rewrite A8 in Z0; discriminate Z0).
+    destruct (f_dropcmd _ _ _ R main q Hq Np) as [[m0 A]|A]; [|right; exact A]. left. exists m0. rewrite A8 in A. destruct A as [A|A]; [exfalso; exact (Ci m0 q A)|exact A].
+  - intros c Hq Wc. rewrite Tr. destruct (f_pr _ _ _ R main c Hq Wc) as [A B]. rewrite A8, prcount_cons, Pi in A, B. exact (conj A B).
+Qed.
+
+Lemma hinstrs_fq : forall h d j, In j (hinstrs h d) -> fq j.
+Proof. intros [w| |c|q] d j [<-|[]]; exact Logic.I. Qed.
+
+Lemma norm_F : forall fuel st s acc k ev s1 acc1 k1 ev1 m p,
+  XInv st -> FRel p (NS st s acc k) m -> norm fuel s acc k ev = (s1, acc1, k1, ev1) -> FRel p (NS st s1 acc1 k1) m.
+Proof.
+  induction fuel as [|f IH]; intros st s acc k ev s1 acc1 k1 ev1 m p X R H; cbn [norm] in H.
+  - inversion H; subst. exact R.
+  - destruct k as [|i r]; [inversion H; subst; exact R|].
+    destruct i as [c| |[|bm bms]|bm [|a ls]| |[|b bs]|[|b bs]| | | | | | | |];
+      try (inversion H; subst; exact R).
+    + eapply IH; [exact X| |exact H]. apply (f_NS_step p st s acc _ r s acc (@nil instr) m X R Logic.I). intros j [].
+    + eapply IH; [exact X| |exact H]. apply (f_NS_step p st s acc _ r s acc (@nil instr) m X R Logic.I). intros j [].
+    + eapply IH; [exact X| |exact H]. apply (f_NS_step p st s acc _ r s [] [IHandlers acc] m X R Logic.I). intros j [<-|[]]. exact Logic.I.
+    + eapply IH; [exact X| |exact H]. apply (f_NS_step p st s acc _ r s acc (@nil instr) m X R Logic.I). intros j [].
+    + destruct (slab_get s b) as [h|] eqn:E.
+      * inversion H; subst s1 acc1 k1 ev1.
+        replace (hinstrs h false ++ IHandlers bs :: r) with ((hinstrs h false ++ [IHandlers bs]) ++ r) by (rewrite <- app_assoc; reflexivity).
+        apply (f_NS_step p st s acc _ r s acc _ m X R Logic.I). intros j Hj. apply in_app_or in Hj. destruct Hj as [Hj|[<-|[]]]; [eapply hinstrs_fq; eauto|exact Logic.I].
+      * eapply IH; [exact X| |exact H]. apply (f_NS_step p st s acc _ r s acc [IHandlers bs] m X R Logic.I). intros j [<-|[]]. exact Logic.I.
+    + eapply IH; [exact X| |exact H]. apply (f_NS_step p st s acc _ r s acc (@nil instr) m X R Logic.I). intros j [].
+    + destruct (wh_del s b) as [[h s']|] eqn:E.
+      * inversion H; subst s1 acc1 k1 ev1.
+        replace (hinstrs h true ++ IDels bs :: r) with ((hinstrs h true ++ [IDels bs]) ++ r) by (rewrite <- app_assoc; reflexivity).
+        apply (f_NS_step p st s acc _ r s' acc _ m X R Logic.I). intros j Hj. apply in_app_or in Hj. destruct Hj as [Hj|[<-|[]]]; [eapply hinstrs_fq; eauto|exact Logic.I].
+      * eapply IH; [exact X| |exact H]. apply (f_NS_step p st s acc _ r s acc [IDels bs] m X R Logic.I). intros j [<-|[]]. exact Logic.I.
+Qed.
